@@ -2402,6 +2402,13 @@ mod generics_search {
             self.found |= tp.path.get_ident().is_some_and(|ident| {
                 self.search.types.contains(ident) || self.search.consts.contains(ident)
             });
+            // `T::Assoc` mentions the type parameter `T` as well (like `<T as Trait>::Assoc` does).
+            self.found |= tp.qself.is_none()
+                && tp.path.leading_colon.is_none()
+                && tp.path.segments.len() > 1
+                && tp.path.segments.first().is_some_and(|s| {
+                    s.arguments.is_none() && self.search.types.contains(&s.ident)
+                });
 
             syn::visit::visit_type_path(self, tp)
         }
